@@ -1388,6 +1388,10 @@ func main() {
 			decisionFunc("driver/generic/sendwithcallbacks.go", "Driver.executeCallback"))
 		fmt.Fprintf(&sw, "(* driver/generic/sendwithcallbacks.go Driver.handleCallbacks: the scan over the callbacks *)\nDefinition callback_scan_code : dstmt :=\n  %s.\n",
 			nestedRange("driver/generic/sendwithcallbacks.go", "Driver.handleCallbacks", "callbacks"))
+		fmt.Fprintf(&sw, "(* driver/network: SendCommand, SendCommands, SendConfigs *)\nDefinition net_send_command_code : list dstmt :=\n  %s.\nDefinition net_send_commands_code : list dstmt :=\n  %s.\nDefinition net_send_configs_code : list dstmt :=\n  %s.\n",
+			decisionFunc("driver/network/sendcommand.go", "Driver.SendCommand"),
+			decisionFunc("driver/network/sendcommands.go", "Driver.SendCommands"),
+			decisionFunc("driver/network/sendconfigs.go", "Driver.SendConfigs"))
 		// the loops that apply an option list to an object (C19)
 		var ol []string
 		for _, lf := range [][2]string{{"driver/generic/driver.go", "NewDriver"}, {"driver/network/driver.go", "NewDriver"}, {"driver/netconf/driver.go", "NewDriver"},
